@@ -350,10 +350,13 @@ def assemble (stmts : List Stmt) (src : Option (List Char)) : ARes ObjFile := do
 
 /-! ### linking -/
 
+/-- `usize::saturating_add` (64-bit) -/
+def satAdd (a b : Nat) : Nat := min (a + b) 18446744073709551615
+
 /-- `DebugSymbols::link` -/
 def DebugSyms.link (a b : DebugSyms) : DebugSyms :=
   let lines := a.src.countLines
-  let shifted := b.lineMap.map (fun e => (e.1 + lines, e.2))
+  let shifted := b.lineMap.map (fun e => (satAdd e.1 lines, e.2))
   ⟨shifted.foldl (fun m e => insertSortedBy e.1 e.2 m) a.lineMap, SourceInfo.ofText (a.src.src ++ '\n' :: b.src.src)⟩
 
 def insertBlockRaw (k : Nat) (v : List (Option W)) (m : Blocks) : Blocks × Bool :=
@@ -411,7 +414,7 @@ def ObjFile.link (a b : ObjFile) : ARes ObjFile := do
       | some ad, none => some ad
       | none, d => d
     let rel := bt.rel.foldl (fun m e => relInsert m e.1 e.2) at_.rel
-    let st ← bt.labels.foldlM (fun st e => linkLabel st (e.1, { e.2 with srcStart := e.2.srcStart + shift })) ⟨at_.labels, rel, []⟩
+    let st ← bt.labels.foldlM (fun st e => linkLabel st (e.1, { e.2 with srcStart := satAdd e.2.srcStart shift })) ⟨at_.labels, rel, []⟩
     let blocks := st.relocs.foldl (fun m r => patchWord m r.1 r.2) blocks
     pure ⟨blocks, some ⟨st.labels, st.rel, debug⟩⟩
   | some at_, none => pure ⟨blocks, some at_⟩
